@@ -364,11 +364,15 @@ def _native_rel_body(rng, R, np, top, mid, l1, l2, rel, before, opname, params, 
     pos0 = top._position.copy()
     st = params.get("start", "auto")
     nn_ = params.get("n", 1)
+    if params.get("reassign"):
+        # re-assign a child to the collection that already owns it (must be a no-op for the tree): a duplicated child would be moved twice
+        mid.parent = mid._parent
+        l1.parent = l1._parent
     if opname == "move":
         top.move(rng.normal(size=(nn_, 3)) if params.get("vector") else rng.normal(size=3), start=st)
     elif opname == "rotate":
         rot = R.from_rotvec(rng.normal(size=(nn_, 3))) if params.get("vector") else R.from_rotvec(rng.normal(size=3))
-        anc = {"none": None, "zero": 0, "s": rng.normal(size=3), "v": rng.normal(size=(params.get("na", 1), 3))}[params.get("anchor", "none")]
+        anc = {"none": None, "zero": 0, "s": rng.normal(size=3), "v": rng.normal(size=(params.get("na", 1), 3)), "self": top.position}[params.get("anchor", "none")]
         top.rotate(rot, anchor=anc, start=st)
     elif opname == "setpos":
         top.position = rng.normal(size=(nn_, 3)) if params.get("vector") else rng.normal(size=3)
@@ -380,8 +384,10 @@ def _native_rel_body(rng, R, np, top, mid, l1, l2, rel, before, opname, params, 
         return "path lengths of tree members differ after the operation"
     after = rel()
     if opname in ("move", "rotate"):
-        scalar = not params.get("vector") and params.get("anchor") != "v"
-        ln = 1 if scalar else max(nn_ if params.get("vector") else 0, params.get("na", 1) if params.get("anchor") == "v" else 0)
+        anc_vec = params.get("anchor") == "v" or (params.get("anchor") == "self" and Nn > 1)  # own position of a path of length > 1 is a vector anchor
+        na_ = Nn if params.get("anchor") == "self" else params.get("na", 1)
+        scalar = not params.get("vector") and not anc_vec
+        ln = 1 if scalar else max(nn_ if params.get("vector") else 0, na_ if anc_vec else 0)
         _, mn, newlen = PS.n_index_map(Nn, ln, scalar, st)
         jmap = [min(max(kk + mn, 0), Nn - 1) for kk in range(newlen)]
     else:
@@ -420,6 +426,10 @@ def native_cases(tier):
                             yield "rotate", dict(N=Nn, vector=vector, n=nn_, start=st, anchor=anc, na=nan_)
                         if Nn <= 2 and nn_ <= 2:
                             yield "rotate", dict(N=Nn, vector=vector, n=nn_, start=st, anchor=anc, na=1, target="mid")
+                    if not vector and st in ("auto", 0):
+                        yield "rotate", dict(N=Nn, vector=False, n=1, start=st, anchor="self", na=1)
+                        yield "move", dict(N=Nn, vector=False, n=1, start=st, reassign=True)
+                        yield "rotate", dict(N=Nn, vector=False, n=1, start=st, anchor="zero", na=1, reassign=True)
                 yield "setpos", dict(N=Nn, vector=vector, n=nn_)
                 yield "setori", dict(N=Nn, vector=vector, n=nn_)
         yield "setori", dict(N=Nn, none=True)
